@@ -182,6 +182,16 @@ class Sym:
         with NoTracing():
             return realize(v)
 
+    def constrain(self, *conds):
+        """add the conjunction of comparisons on symbolic values to the path condition WITHOUT forking
+        (an assumption on the inputs, stated in the module's ASSUMPTIONS/BOUNDS)"""
+        with NoTracing():
+            space = context_statespace()
+            for c in conds:
+                space.add(self._z3(c))
+            if space.solver.check() != z3.sat:
+                raise IgnoreAttempt
+
     def cover(self, tag):
         with NoTracing():
             self.tags[tag] = self.tags.get(tag, 0) + 1
